@@ -1,2 +1,210 @@
-(* C06 — routers deliver each packet once to exactly the addressed stations. *)
+(* C06 — routers deliver each packet once to exactly the addressed stations.
+   Property theorems only; the model is Bac.Net (no proofs), the proofs live in Bac.NetFacts.
+   Local theorems hold for EVERY node state, adapter, and arriving frame of the model.  `Fwd` marks the copies made
+   by the forwarding section of process_npdu (netservice.py:607-676), `Tx` every other frame a node emits. *)
 From Bac Require Import Base Net NetFacts.
+Open Scope N_scope.
+
+(* each router hop lowers the hop count by exactly one, and keeps payload and message type *)
+Theorem C06_hop_decrement : forall n i src dst p n' acts j d q,
+  process_npdu n i src dst p = (n', acts) -> In (Fwd j d q) acts ->
+  n_hop p <> 0 /\ n_hop q + 1 = n_hop p /\ n_data q = n_data p /\ n_msg q = n_msg p.
+Proof. exact thm_hop_decrement. Qed.
+Print Assumptions C06_hop_decrement.
+
+(* nothing is forwarded once the count is exhausted *)
+Theorem C06_no_forward_at_zero : forall n i src dst p n' acts,
+  process_npdu n i src dst p = (n', acts) -> n_hop p = 0 -> forall j d q, ~ In (Fwd j d q) acts.
+Proof. exact thm_no_forward_at_zero. Qed.
+Print Assumptions C06_no_forward_at_zero.
+
+(* a frame without DADR (local unicast / local broadcast) is never forwarded: it stays on its network *)
+Theorem C06_local_stays_local : forall n i src dst p n' acts,
+  process_npdu n i src dst p = (n', acts) -> n_dadr p = None -> forall j d q, ~ In (Fwd j d q) acts.
+Proof. exact thm_local_stays. Qed.
+Print Assumptions C06_local_stays_local.
+
+(* "not back onto the arrival network": FALSE of the code in one situation — the cache names a next-hop
+   router on the arrival network.  Witness: router with ports (net 1, net 2) that has heard a router 0x0b on net 1
+   announce network 5, and receives on net 1 a packet for network 5. *)
+Theorem C06_not_back_refuted : exists n i src dst p j d q,
+  In (Fwd j d q) (snd (process_npdu n i src dst p)) /\ j = i.
+Proof.
+  exists (mkNode [mkAd (Some 1) (Some [10]); mkAd (Some 2) (Some [10])] false [((Some 1, 5), [11])] []),
+         0%nat, [1], (LStation [10]), (mkNpdu (Some (DStation 5 [7])) None 255 None [16; 99; 1]),
+         0%nat, (LStation [11]), (mkNpdu (Some (DStation 5 [7])) (Some (1, [1])) 254 None [16; 99; 1]).
+  vm_compute. split; [left; reflexivity|reflexivity].
+Qed.
+Print Assumptions C06_not_back_refuted.
+
+(* ... and that is the only situation: a forwarded copy leaves on another adapter, or it is a routed-on unicast
+   to the router the cache records for the destination network on the arrival network *)
+Theorem C06_not_back_partial : forall n i src dst p n' acts j d q,
+  process_npdu n i src dst p = (n', acts) -> In (Fwd j d q) acts ->
+  j <> i \/
+  exists ai dnet m, nth_adapter n' i = Some ai /\
+    (n_dadr p = Some (DBcast dnet) \/ exists mm, n_dadr p = Some (DStation dnet mm)) /\
+    find_net n' (Some dnet) = None /\ cache_get (rcache n') (a_net ai) dnet = Some m /\
+    d = LStation m /\ n_dadr q = n_dadr p.
+Proof. exact thm_not_back. Qed.
+Print Assumptions C06_not_back_partial.
+
+Theorem C06_not_back_global_broadcast : forall n i src dst p n' acts j d q,
+  process_npdu n i src dst p = (n', acts) -> In (Fwd j d q) acts -> n_dadr p = Some DGlobal -> j <> i.
+Proof. exact thm_not_back_global. Qed.
+Print Assumptions C06_not_back_global_broadcast.
+
+Theorem C06_not_back_last_leg : forall n i src dst p n' acts j d q,
+  process_npdu n i src dst p = (n', acts) -> In (Fwd j d q) acts -> n_dadr q = None -> j <> i.
+Proof. exact thm_not_back_last_leg. Qed.
+Print Assumptions C06_not_back_last_leg.
+
+Theorem C06_not_back_unless_cached : forall n i src dst p n' acts j d q,
+  process_npdu n i src dst p = (n', acts) -> In (Fwd j d q) acts ->
+  (forall ai dnet, nth_adapter n' i = Some ai -> cache_get (rcache n') (a_net ai) dnet = None) -> j <> i.
+Proof. exact thm_not_back_unless_cached. Qed.
+Print Assumptions C06_not_back_unless_cached.
+
+(* the SADR of a forwarded copy is the one received, or (arrival network, link source) when there was none:
+   it names the originator's network and station *)
+Theorem C06_sadr_names_originator : forall n i src dst p n' acts j d q,
+  process_npdu n i src dst p = (n', acts) -> In (Fwd j d q) acts ->
+  exists ai inet, nth_adapter n i = Some ai /\ a_net ai = Some inet /\
+                  n_sadr q = Some (match n_sadr p with Some s => s | None => (inet, src) end).
+Proof. exact thm_sadr. Qed.
+Print Assumptions C06_sadr_names_originator.
+
+(* what reaches the application: the unchanged payload of an application-layer frame; a remote unicast only at
+   the node whose local adapter has exactly that network and address; a remote broadcast only on its target
+   network; a frame without DADR only on the local adapter; the source shown is the SADR when there is one *)
+Theorem C06_local_unicast_only_addressee : forall n i src dst p n' acts s d x,
+  process_npdu n i src dst p = (n', acts) -> In (Up s d x) acts ->
+  exists ai la, nth_adapter n i = Some ai /\ nth_adapter n (local_idx n) = Some la /\
+    x = n_data p /\ n_msg p = None /\ has_app n = true /\ s = shown_source n i ai src p /\
+    match n_dadr p with
+    | None => i = local_idx n
+    | Some (DStation dnet m) => a_net la = Some dnet /\ a_mac la = Some m
+    | Some (DBcast dnet) => a_net la = Some dnet
+    | Some DGlobal => True
+    end.
+Proof. exact process_npdu_up. Qed.
+Print Assumptions C06_local_unicast_only_addressee.
+
+(* the LAN: a unicast frame is processed only by the port it names; a broadcast never by its sender *)
+Theorem C06_lan_unicast_only_addressee : forall wmac f m,
+  f_dst f = LStation m -> accepts wmac f = true -> wmac = m.
+Proof. exact thm_lan_unicast. Qed.
+Print Assumptions C06_lan_unicast_only_addressee.
+
+Theorem C06_lan_no_echo : forall wmac f, f_dst f = LBcast -> f_src f = wmac -> accepts wmac f = false.
+Proof. exact thm_lan_no_echo. Qed.
+Print Assumptions C06_lan_no_echo.
+
+(* one arriving frame is handed up at most once *)
+Theorem C06_delivered_at_most_once : forall n i src dst p n' acts,
+  process_npdu n i src dst p = (n', acts) -> (count_up acts <= 1)%nat.
+Proof. exact process_npdu_up_once. Qed.
+Print Assumptions C06_delivered_at_most_once.
+
+(* apart from forwarded copies a node emits only network-layer messages and packets it had parked itself *)
+Theorem C06_payload_leaves_only_forwarded_or_parked : forall n i src dst p n' acts j d q,
+  process_npdu n i src dst p = (n', acts) -> In (Tx j d q) acts -> n_msg q <> None \/ parked n q.
+Proof. exact process_npdu_tx. Qed.
+Print Assumptions C06_payload_leaves_only_forwarded_or_parked.
+
+(* path discovery: the announcement for network d releases the packets parked for d, each exactly once and in
+   order, to the announcing router; nothing remains parked for d *)
+Theorem C06_pending_released_once : forall n i ai src dst d l n' acts,
+  nth_adapter n i = Some ai -> modelled_config n = true -> d < 65536 ->
+  pending_wf (pending n) -> pending_get (pending n) d = Some l ->
+  process_npdu n i src dst (i_am [d]) = (n', acts) ->
+  acts = (if is_router n then map (fun j => Tx j LBcast (i_am [d])) (other_ports n i) else [])
+         ++ map (fun q => Tx i (LStation src) q) l
+  /\ pending_get (pending n') d = None /\ pending_wf (pending n').
+Proof. exact i_am_releases_parked. Qed.
+Print Assumptions C06_pending_released_once.
+
+(* termination of forwarding, per step: every copy made has a strictly smaller hop count and at most
+   (number of adapters + 1) copies are made, so the multiset of hop counts of application copies in flight
+   decreases in the multiset order on any topology.  PARTIAL: the global statement (a run of the internetwork
+   reaches quiescence) is not derived here; see C06_global_broadcast_terminates for global broadcasts and the
+   simulation for the rest. *)
+Theorem C06_forwarding_terminates_partial : forall n i src dst p n' acts,
+  process_npdu n i src dst p = (n', acts) ->
+  (length (filter is_fwd acts) <= S (length (adapters n)))%nat /\
+  forall j d q, In (Fwd j d q) acts -> n_hop q < n_hop p.
+Proof.
+  intros n i src dst p n' acts H. split; [exact (thm_fanout _ _ _ _ _ _ _ H)|].
+  intros j d q Hin. destruct (thm_hop_decrement _ _ _ _ _ _ _ _ _ _ H Hin) as (_ & E & _).
+  rewrite <- E. apply N.lt_add_pos_r. reflexivity.
+Qed.
+Print Assumptions C06_forwarding_terminates_partial.
+
+(* C06_announcements_terminate is FALSE of the code: on a ring of three routers with cold caches one remote
+   unicast starts a relay of I-Am-Router-To-Network messages that never stops (the state of all nodes and the
+   queue after 9 steps recurs every 3 steps); the payload itself is delivered exactly once. *)
+Theorem C06_cycle_discovery_refuted :
+  (forall k, queue (run k ring3_send) <> []) /\
+  filter (fun o => match o with OUp _ _ _ _ => true | _ => false end) (trace (run 12 ring3_send))
+  = [OUp 5 (ARS 1 [1]) (ALS [1]) [16; 99; 7]].
+Proof. split; [exact ring3_never_quiet|exact ring3_payload_delivered]. Qed.
+Print Assumptions C06_cycle_discovery_refuted.
+
+(* ---- non-vacuity *)
+(* a three-port router forwards a global broadcast received on port 0 to ports 1 and 2 with hop - 1 and SADR *)
+Example C06_forward_example :
+  snd (process_npdu (mkNode [mkAd (Some 1) (Some [10]); mkAd (Some 2) (Some [10]); mkAd (Some 3) (Some [10])] false [] [])
+                    0 [1] LBcast (mkNpdu (Some DGlobal) None 255 None [16; 99; 1]))
+  = [Fwd 1 LBcast (mkNpdu (Some DGlobal) (Some (1, [1])) 254 None [16; 99; 1]);
+     Fwd 2 LBcast (mkNpdu (Some DGlobal) (Some (1, [1])) 254 None [16; 99; 1])].
+Proof. vm_compute. reflexivity. Qed.
+
+(* a station delivers a routed unicast addressed to it and shows the originator *)
+Example C06_deliver_example :
+  snd (process_npdu (mkNode [mkAd (Some 4) (Some [2])] true [] [])
+                    0 [11] (LStation [2]) (mkNpdu None (Some (1, [1])) 0 None [16; 99; 1]))
+  = [Up (ARS 1 [1]) (ALS [2]) [16; 99; 1]].
+Proof. vm_compute. reflexivity. Qed.
+
+(* parked packet released by the announcement *)
+Example C06_pending_example :
+  let n := fst (indication (mkNode [mkAd (Some 4) (Some [2])] true [] []) (ARS 9 [7]) [16; 99; 1]) in
+  pending_wf (pending n) /\ pending_get (pending n) 9 = Some [mkNpdu (Some (DStation 9 [7])) None 255 None [16; 99; 1]] /\
+  snd (process_npdu n 0 [11] (LStation [2]) (i_am [9]))
+  = [Tx 0 (LStation [11]) (mkNpdu (Some (DStation 9 [7])) None 255 None [16; 99; 1])].
+Proof. vm_compute. repeat split. repeat constructor; intros []. Qed.
+
+(* a four-network tree (routers R0: nets 1,2,3; R1: nets 3,4) with correct caches: unicast, remote broadcast and
+   global broadcast from the station on network 1 are delivered exactly once to exactly the right stations *)
+Definition tree4 : world :=
+  mkWorld
+    [mkW (mkNode [mkAd (Some 1) (Some [10]); mkAd (Some 2) (Some [10]); mkAd (Some 3) (Some [10])] false
+                 [((Some 3, 4), [11])] []) [(1, [10]); (2, [10]); (3, [10])];
+     mkW (mkNode [mkAd (Some 3) (Some [11]); mkAd (Some 4) (Some [11])] false
+                 [((Some 3, 1), [10]); ((Some 3, 2), [10])] []) [(3, [11]); (4, [11])];
+     mkW (mkNode [mkAd (Some 1) (Some [1])] true [((Some 1, 2), [10]); ((Some 1, 3), [10]); ((Some 1, 4), [10])] []) [(1, [1])];
+     mkW (mkNode [mkAd (Some 2) (Some [1])] true [] []) [(2, [1])];
+     mkW (mkNode [mkAd None None] true [] []) [(3, [1])];
+     mkW (mkNode [mkAd (Some 4) (Some [1])] true [] []) [(4, [1])];
+     mkW (mkNode [mkAd None (Some [2])] true [] []) [(4, [2])]]
+    [(1, [(0, 0); (2, 0)]%nat); (2, [(0, 1); (3, 0)]%nat); (3, [(0, 2); (1, 0); (4, 0)]%nat);
+     (4, [(1, 1); (5, 0); (6, 0)]%nat)]
+    [] [].
+Definition ups (w : world) : list obs :=
+  filter (fun o => match o with OUp _ _ _ _ => true | _ => false end) (rev (trace w)).
+
+Example C06_tree_unicast_example :
+  let w := run 100 (submit tree4 2 (ARS 4 [2]) [16; 99; 1]) in
+  queue w = [] /\ ups w = [OUp 6 (ARS 1 [1]) (ALS [2]) [16; 99; 1]].
+Proof. vm_compute. split; reflexivity. Qed.
+
+Example C06_tree_remote_broadcast_example :
+  let w := run 100 (submit tree4 2 (ARB 4) [16; 99; 2]) in
+  queue w = [] /\ ups w = [OUp 5 (ARS 1 [1]) ALB [16; 99; 2]; OUp 6 (ARS 1 [1]) ALB [16; 99; 2]].
+Proof. vm_compute. split; reflexivity. Qed.
+
+Example C06_tree_global_broadcast_example :
+  let w := run 100 (submit tree4 2 AGB [16; 99; 3]) in
+  queue w = [] /\ ups w = [OUp 3 (ARS 1 [1]) AGB [16; 99; 3]; OUp 4 (ARS 1 [1]) AGB [16; 99; 3];
+                           OUp 5 (ARS 1 [1]) AGB [16; 99; 3]; OUp 6 (ARS 1 [1]) AGB [16; 99; 3]].
+Proof. vm_compute. split; reflexivity. Qed.
